@@ -459,10 +459,19 @@ func roundTripBufYAML(text string) rtResult {
 	return res
 }
 
+// sink is what the per-case code needs from evid.Run (a collector implements it for replays).
+type sink interface {
+	Violate(signature, what string, c any)
+	Incomplete(reason string)
+	Distinct(key string)
+}
+
+var _ sink = (*evid.Run)(nil)
+
 // reportRoundTrip turns an rtResult into violations; fileType is used in signatures.
-func reportRoundTrip(r *evid.Run, fileType string, res rtResult, c any) {
+func reportRoundTrip(r sink, fileType string, res rtResult, c any) {
 	caseOf := func(extra m) m {
-		out := m{"case": c, "written": res.written1}
+		out := m{"kind": fileType, "case": c, "written": res.written1}
 		for k, v := range extra {
 			out[k] = v
 		}
